@@ -168,7 +168,7 @@ impl Prop for C16 {
     fn rule(&self) -> &'static str {
         "one run = a hot/cold pair of SimStores (cold store needs warm-up; in half of the runs it rejects pack reads that were not warmed up) under the library's own HotColdBackend, plus a single-store twin fed the same history \
          (backup, forget, repacking prune, config change, key add, key removal, copy of a snapshot from another repository into the pair; partly under seeded gate schedules). Oracles: (1) the combined hot+cold mutation log is replayed op by op and after EVERY op every key/snapshot/index/tree-pack file listed by cold must be in hot with identical bytes and no data pack may be in hot — i.e. at every crash prefix; \
-         (2) snapshot sets (tree id, time) equal the twin's and every snapshot reads back equal to its model; (3) for restore into an empty directory, a second restore onto that directory after damaging some of its files, repacking prune and repair_index on the rejecting cold store (all packs cooled down before each command) the commands succeed and every cold pack read is preceded by a warm-up request for that pack; \
+         (2) snapshot sets (tree id, time) equal the twin's and every snapshot reads back equal to its model; (3) for restore into an empty directory, a second restore onto that directory after damaging some of its files, repacking prune and repair_index (in half of the runs after losing some or all index files, so that pack headers must be read from the cold store; every snapshot must read back afterwards) on the rejecting cold store (all packs cooled down before each command) the commands succeed and every cold pack read is preceded by a warm-up request for that pack; \
          (4) a seeded subset (or all) of the hot files is removed, repair_hotcold_except_packs + repair_hotcold_packs run, the invariant holds again and check is clean; (5) one storage op of a backup fails on the hot or the cold store: the command returns Err and the per-op invariant still holds. \
          evaluations = ops replayed + end oracles; non-trivial = >= 10 ops replayed and a repack or a repair actually moved files; distinct = hash(history, config)"
     }
@@ -462,11 +462,26 @@ impl Prop for C16 {
                 let _ = std::fs::remove_dir_all(&dest);
             }
             sim.store.cool_down();
+            // in half of the runs some (or all) index files are lost first: the packs they listed are then
+            // unknown to the index and repair_index has to read their headers from the cold store
+            let mut lost_index = 0u64;
+            if rng.chance(1, 2) {
+                let all = rng.chance(1, 2);
+                for id in sim.store.list_ids(FileType::Index) {
+                    if all || rng.chance(1, 2) {
+                        let _ = sim.store.remove_raw(FileType::Index, &id);
+                        let _ = hot.remove_raw(FileType::Index, &id);
+                        lost_index += 1;
+                    }
+                }
+                rep.fire("lost_file(index, both stores)", lost_index);
+            }
+            let read_all = lost_index == 0 || rng.chance(1, 2);
             let (st, ht, ky) = (sim.store.clone(), sim.hot.clone(), sim.key.clone());
             let l0 = sim.store.log_len();
             let (lc0, lh0) = (sim.store.log_len(), hot.log_len());
             let (c0, h0) = (sim.store.files(), hot.files());
-            let r = sim.run(&Mode::Free, move || open_on(&st, &ht, 1, &ky)?.repair_index(&RepairIndexOptions::default().read_all(true), false));
+            let r = sim.run(&Mode::Free, move || open_on(&st, &ht, 1, &ky)?.repair_index(&RepairIndexOptions::default().read_all(read_all), false));
             evaluations += 1;
             if !r.is_ok() {
                 rep.violation(format!("C16/repair-index-on-hot-cold-{}", r.class()), r.detail());
@@ -475,6 +490,12 @@ impl Prop for C16 {
                 rep.violation("C16/cold-pack-read-without-warm-up:repair-index", format!("repair_index performed `{bad}` on the cold store without a preceding warm-up of that pack"));
             }
             evaluations += replay_invariant(&key, &c0, &h0, &sim.store.log_from(lc0), &hot.log_from(lh0), &mut rep, "repair_index");
+            if lost_index > 0 && rep.violations.is_empty() {
+                for (fp, d) in sim.verify(false) {
+                    rep.violation(format!("C16/after-repair-index-with-lost-index-files:{fp}"), d);
+                }
+                evaluations += 1;
+            }
         }
         // ---------- (5) a failing storage op during a backup
         if rep.violations.is_empty() {
